@@ -385,12 +385,11 @@ Definition protected (f : bytes) : bytes :=
   mask_fields (ztk (sp_payload_end f) f) (sp_cksum f) (sp_dd4 f).
 Definition pad_to8 (l : bytes) : bytes := l ++ zeros ((8 - zlen l mod 8) mod 8).
 
-(* the independent reader's view used for C03: the image without checksum, directory entry and certificate table,
-   brought to the 8-byte boundary the certificate table has to start on, and the raw data of every section *)
-Record pview := mkView { pv_image : bytes; pv_sections : list bytes }.
-Definition payload_view (f : bytes) : pview :=
-  mkView (pad_to8 (protected f)) (map (fun s => zsl (fst s) (fst s + snd s) f) (sp_secs f)).
-Definition payload (f : bytes) : result pview := Ok (payload_view f).
+(* the independent reader's view used for C03: the image without checksum, directory entry and certificate table, brought
+   to the 8-byte boundary the certificate table has to start on (the section table is part of it; sp_secs reads it) *)
+Definition payload_view (f : bytes) : bytes := pad_to8 (protected f).
+Definition payload (f : bytes) : result bytes := Ok (payload_view f).
+Definition sp_section_data (f : bytes) (s : Z * Z) : bytes := zsl (fst s) (fst s + snd s) f.
 
 (* optional-header checksum (ImageHlp CheckSumMappedFile): sum of the 16-bit little-endian words of the file with the
    CheckSum field read as zero and an odd last byte zero-extended, folded with end-around carry, plus the file length *)
